@@ -42,6 +42,7 @@ def cases(tier, seed):
             for mi, mesh in enumerate(meshes):
                 if tier == "quick" and (fi + mi + nd) % 2:
                     continue
+                third = tier == "thorough" and (fi + mi) % 3 == 0
                 k += 1
                 d = dict(mesh)
                 d.update(list(scope.geometries(nd))[k % 6])
@@ -51,7 +52,7 @@ def cases(tier, seed):
                 other = FIELDSETS[(fi + 3) % len(FIELDSETS)]
                 d2 = dict(meshes[(mi + 1) % len(meshes)])
                 d2.update({"fields": other, "time": times[(k + 1) % len(times)], "seed": seed + 1, "payload": "signed"})
-                out.append({"desc": d, "desc2": d2})
+                out.append({"desc": d, "desc2": d2, "triples": third})
     return out
 
 
@@ -221,6 +222,21 @@ def run_case(case, workdir):
                 rec.exe([dh, sub], trans=2)
                 if got != fresh[(t2,) + m2]:
                     rec.fail("menu_history_dependent", sub, "second call prints something else than in a fresh process")
+    # depth 3: A, B, then A or B again - all 4x4x4 mode triples
+    if case.get("triples"):
+        import itertools as _it
+        for (t1, p1), (t2, p2), (t3, p3) in ((("A", path), ("B", path2), ("A", path)), (("B", path2), ("A", path), ("B", path2)),
+                                             (("A", path), ("A", path), ("B", path2))):
+            for m1, m2, m3 in _it.product(MODES, repeat=3):
+                reset()
+                run_menu(p1, *m1)
+                run_menu(p2, *m2)
+                st, val, text = run_menu(p3, *m3)
+                got = (st, text if st == "ok" else exc_text(val))
+                rec.exe([dh, "triple", t1, t2, t3, m1, m2, m3], trans=3)
+                if got != fresh[(t3,) + m3]:
+                    rec.fail("menu_history_dependent", {"tool": "menu", "history": [[t1, list(m1)], [t2, list(m2)], [t3, list(m3)]]},
+                             "third call prints something else than in a fresh process")
     reset()
     # ---- marinate
     with Captured(["marinate", path]) as c:
